@@ -1,1 +1,24 @@
-// verification harness include for oneshot (see /verif/DESIGN.md)
+// Included at the end of /repo/src/channel/oneshot.rs under cfg(futures_intrusive_verif).
+pub(crate) mod verif_oneshot {
+    use super::*;
+    use crate::verif::common::*;
+    use core::future::Future;
+    use core::mem::ManuallyDrop;
+    use core::pin::Pin;
+    use futures_core::future::FusedFuture;
+
+    type Chan<M> = GenericOneshotChannel<M, Tag>;
+    const BROADCAST: bool = false;
+
+    include!(concat!(env!("FI_VERIF_INC"), "/oneshot_common.rs"));
+
+    #[no_mangle]
+    pub fn fi_verif_replay_oneshot(name: &str, cfg: u32, p: u32, s: &mut ScriptSrc<'_>) -> bool {
+        match name {
+            "oneshot_hist_noop" => { hist::<NoopLock, _>(s, cfg, 64, p); }
+            "oneshot_hist_check" => { hist::<CheckLock, _>(s, cfg, 64, p); }
+            _ => return false,
+        }
+        true
+    }
+}
